@@ -60,6 +60,7 @@ type RollScn struct {
 	FaultDir []string   `json:"dir_faults,omitempty"` // C14: readdir | info | remove failures
 	Static   string     `json:"static,omitempty"`     // C19b: file-closed | file-unstarted | console-fails
 	ViaLogger bool      `json:"via_logger,omitempty"` // C14: the sibling pair is built by a RollingFileLogger (separate=true)
+	Twin     bool       `json:"twin,omitempty"`       // C13: a second live appender object on the same directory and name (odd writers use it)
 	Script   []string   `json:"script,omitempty"`     // C19 grid: sequential script of w | clk | out:<kind> | restore
 }
 
@@ -109,7 +110,15 @@ func genRollBase(rt *rapid.T, thorough bool, maxWriters int) *RollScn {
 func clockEnv(x *Exec, s *RollScn, boundaries *int) {
 	iv := intervals[s.Interval]
 	idx := 0
-	x.Sim.AddEnv(&verifsim.EnvAction{Name: "clock", Enabled: func() bool { return idx < len(s.Clock) }, Run: func() {
+	// With a retention period as short as the clock moves themselves (MaxAge 1 h), time only
+	// passes between operations: the environment assumption is that no goroutine is stalled for
+	// longer than MaxAge in the middle of a write, a rotation or a retention sweep.
+	between := func() bool {
+		return s.MaxAge > 1000 || x.Sim.AllTasksLocked(func(t verifsim.Task) bool {
+			return t.State == verifsim.StDone || (!t.Daemon && (t.Site == "" || t.Site == "start" || t.Site == "writer.between"))
+		})
+	}
+	x.Sim.AddEnv(&verifsim.EnvAction{Name: "clock", Enabled: func() bool { return idx < len(s.Clock) && between() }, Run: func() {
 		k := s.Clock[idx]
 		idx++
 		now := verifsim.Now()
@@ -169,8 +178,13 @@ func spawnWriters(x *Exec, s *RollScn, a *log.RollingFileAppender, writes *[]*ro
 
 // spawnWritersPart starts the writers for part k of n of every writer's list
 // (phases separated by stop/start cycles).
-func spawnWritersPart(x *Exec, s *RollScn, a *log.RollingFileAppender, writes *[]*rollWrite, k, n int) {
+func spawnWritersPart(x *Exec, s *RollScn, a *log.RollingFileAppender, writes *[]*rollWrite, k, n int, twin ...*log.RollingFileAppender) {
+	first := a
 	for w := range s.Writers {
+		a := first
+		if len(twin) > 0 && w%2 == 1 {
+			a = twin[0]
+		}
 		lo, hi := len(s.Writers[w])*k/n, len(s.Writers[w])*(k+1)/n
 		if lo == hi {
 			continue
@@ -240,6 +254,12 @@ func (c13) Gen(rt *rapid.T, thorough bool) any {
 	s := genRollBase(rt, thorough, mw)
 	s.Pre = rapid.IntRange(0, 3).Draw(rt, "pre") == 0
 	s.Restarts = rapid.SampledFrom([]int{0, 0, 0, 1, 2}).Draw(rt, "restarts")
+	s.Twin = len(s.Writers) > 1 && rapid.IntRange(0, 3).Draw(rt, "twin") == 0
+	if rapid.IntRange(0, 7).Draw(rt, "huge") == 0 {
+		// one very long line somewhere: "whole" has no size limit
+		w := rapid.IntRange(0, len(s.Writers)-1).Draw(rt, "huge_w")
+		s.Writers[w][rapid.IntRange(0, len(s.Writers[w])-1).Draw(rt, "huge_i")] = 300000
+	}
 	return s
 }
 
@@ -258,6 +278,16 @@ func (c13) Run(x *Exec, scn any) {
 	if err := a.Start(); err != nil {
 		panic("harness: rolling Start failed on a healthy disk: " + err.Error())
 	}
+	var twin []*log.RollingFileAppender
+	if s.Twin {
+		// two live appenders on the same directory and name (two loggers left at the default
+		// file name): both append to the same files, neither may disturb the other's lines
+		b := newRolling(s, rollName)
+		if err := b.Start(); err != nil {
+			panic("harness: twin rolling Start failed on a healthy disk: " + err.Error())
+		}
+		twin = append(twin, b)
+	}
 	boundaries := 0
 	clockEnv(x, s, &boundaries)
 	var writes []*rollWrite
@@ -266,7 +296,7 @@ func (c13) Run(x *Exec, scn any) {
 	// the writers' lists are cut into Restarts+1 phases with a stop/start between them,
 	// all within whatever simulated time the scheduler lets pass (often the same second)
 	phases := s.Restarts + 1
-	spawnWritersPart(x, s, a, &writes, 0, phases)
+	spawnWritersPart(x, s, a, &writes, 0, phases, twin...)
 	res := x.Sim.Run(nil)
 	if len(x.clientsStuck()) > 0 || res.StepCap {
 		o.violate("blocked", "C13/write-blocked", "writes did not finish: %+v", res)
@@ -285,7 +315,7 @@ func (c13) Run(x *Exec, scn any) {
 		})
 		x.Sim.Run(nil)
 		restartsDone++
-		spawnWritersPart(x, s, a, &writes, r+1, phases)
+		spawnWritersPart(x, s, a, &writes, r+1, phases, twin...)
 		res = x.Sim.Run(nil)
 		if len(x.clientsStuck()) > 0 || res.StepCap {
 			o.violate("blocked", "C13/write-blocked", "writes after a restart did not finish: %+v", res)
@@ -293,6 +323,9 @@ func (c13) Run(x *Exec, scn any) {
 	}
 	x.Sim.Spawn("stopper", func() {
 		a.Stop()
+		for _, b := range twin {
+			b.Stop()
+		}
 		if s.Knobs.MapSeed%2 == 0 {
 			if pv, st := call(a.Stop); pv != nil { // appenders tolerate a second Stop
 				o.violate("second-stop-panic", "C13/second-stop-panics/"+panicSite(st), "a second Stop of the rolling appender panicked: %v", pv)
@@ -366,6 +399,29 @@ func judgeRolling(x *Exec, s *RollScn, pid string, writes []*rollWrite, iv time.
 			x.Sim.Probe("write_failed_in_os_and_absent")
 			continue // the OS refused this very write: the only legitimate way for a returned write to be absent
 		}
+		if total == 0 {
+			// retention may have removed the file that held it - legitimately only if the file's
+			// last modification was older than MaxAge when it went
+			var gone *simos.Removal
+			for _, r := range x.FS.Removals() {
+				if strings.Contains(string(r.Data), w.Payload) {
+					gone = &r
+				}
+			}
+			if gone != nil {
+				// (a writer stalled for longer than MaxAge between picking its file and writing into
+				// it lands in an expired file too: a line that old may go with it)
+				maxAge := time.Duration(s.MaxAge) * time.Hour
+				// (and once the wall clock has jumped backwards ages are not comparable at all)
+				if gone.At.Sub(gone.Mtime) >= maxAge || gone.At.Sub(w.Start) >= maxAge || backward {
+					x.Sim.Probe("write_expired_with_its_file")
+					continue
+				}
+				o.violate("lost-write", pid+"/accepted-write-deleted-with-a-recent-file", "write %s (%s..%s) was in %s, which was removed at %s although last modified at %s (maxAge %d h)", w.ID,
+					w.Start.Format("15:04:05.000"), w.End.Format("15:04:05.000"), gone.Path, gone.At.Format("15:04:05.000"), gone.Mtime.Format("15:04:05.000"), s.MaxAge)
+				continue
+			}
+		}
 		switch {
 		case total == 0:
 			disc := "no-failed-os-write"
@@ -431,6 +487,15 @@ func (c19) Gen(rt *rapid.T, thorough bool) any {
 	n := rapid.IntRange(1, 2).Draw(rt, "outages")
 	for i := 0; i < n; i++ {
 		s.Outage = append(s.Outage, OutageOp{Kind: rapid.SampledFrom([]string{"rename", "rename", "emfile", "enospc", "eacces", "wfail", "wfail-short"}).Draw(rt, "outage")}, OutageOp{Kind: "restore"})
+	}
+	if (s.Interval == "10m" || s.Interval == "h") && rapid.IntRange(0, 2).Draw(rt, "short_retention") == 0 {
+		// retention shorter than the outage: the file the appender is forced to keep is older
+		// by name than MaxAge, yet it is the live file and freshly written
+		s.MaxAge = 1
+		for i := 0; i < 3; i++ {
+			s.Clock = append(s.Clock, ckPlus3Intervals)
+		}
+		s.Clock = append(s.Clock, ckPlus1ms, ckAfterBoundary)
 	}
 	if rapid.IntRange(0, 5).Draw(rt, "clock_back") == 0 {
 		// the wall clock may also jump backwards; then only robustness clauses are judged
@@ -507,15 +572,54 @@ func (c19) Run(x *Exec, scn any) {
 	var writes []*rollWrite
 	maxOpen := 0
 	var res verifsim.RunResult
+	// script mode is sequential, so where each write must land is known exactly. Per appender:
+	// the interval of the file in use and the last interval in which creation was attempted.
+	type apModel struct {
+		ap        *log.RollingFileAppender
+		prefix    string
+		file, att time.Time
+	}
+	type expect struct {
+		w      *rollWrite
+		m      *apModel
+		file   time.Time
+		outage bool
+	}
+	var models = map[string]*apModel{"w": {ap: a, prefix: rollName + ".", file: verifsim.Now().Truncate(iv), att: verifsim.Now().Truncate(iv)}}
+	var expects []expect
+	sibling := false
+	for _, step := range s.Script {
+		sibling = sibling || step == "v"
+	}
+	if sibling {
+		// a second appender in the same directory (what separate=true builds): each one notices
+		// a boundary at its own next write and makes its own creation attempt
+		b := newRolling(s, rollName+".wf")
+		if err := b.Start(); err != nil {
+			panic("harness: sibling rolling Start failed on a healthy disk: " + err.Error())
+		}
+		models["v"] = &apModel{ap: b, prefix: rollName + ".wf.", file: verifsim.Now().Truncate(iv), att: verifsim.Now().Truncate(iv)}
+	}
 	if len(s.Script) > 0 {
 		// enumerated placement: a fixed sequential script, the outage begins and ends at given positions
 		for i, step := range s.Script {
 			switch {
-			case step == "w":
-				rw := &rollWrite{ID: fmt.Sprintf("g%d", i), Payload: rollPayload(0, i, 10), Start: verifsim.Now()}
-				writes = append(writes, rw)
+			case step == "w" || step == "v":
+				m := models[step]
+				rw := &rollWrite{ID: fmt.Sprintf("g%d%s", i, step), Payload: rollPayload(0, i, 10), Start: verifsim.Now()}
+				outage := away || rule != nil
+				if k := rw.Start.Truncate(iv); !k.Equal(m.att) {
+					m.att = k
+					if !outage {
+						m.file = k
+					}
+				}
+				expects = append(expects, expect{w: rw, m: m, file: m.file, outage: outage})
+				if step == "w" {
+					writes = append(writes, rw)
+				}
 				ok := x.do(fmt.Sprintf("writer-g%d", i), func() {
-					pv, _ := call(func() { a.Write([]byte(rw.Payload)) })
+					pv, _ := call(func() { m.ap.Write([]byte(rw.Payload)) })
 					rw.End = verifsim.Now()
 					rw.Panic, rw.Returned = pv, pv == nil
 				})
@@ -576,7 +680,12 @@ func (c19) Run(x *Exec, scn any) {
 		maxOpen = n
 	}
 	writes = append(writes, final)
-	x.Sim.Spawn("stopper", func() { a.Stop() })
+	x.Sim.Spawn("stopper", func() {
+		a.Stop()
+		if m := models["v"]; m != nil {
+			m.ap.Stop()
+		}
+	})
 	x.Sim.Run(nil)
 	for _, t := range x.Sim.Died() {
 		if t.Daemon {
@@ -621,7 +730,51 @@ func (c19) Run(x *Exec, scn any) {
 			}
 		}
 	}
+	// (2b) script mode: every write sits in exactly the file the sequential model says
+	if !backward {
+		all := x.FS.AllFiles()
+		for _, e := range expects {
+			if !e.w.Returned {
+				if e.w.Panic != nil && e.m.prefix != rollName+"." {
+					o.violate("write-panic", "C19/write-panic", "Write %s on the sibling appender panicked: %v", e.w.ID, e.w.Panic)
+				}
+				continue
+			}
+			mine := map[string][]byte{}
+			for p, d := range all {
+				base := p[strings.LastIndex(p, "/")+1:]
+				if rest, ok := strings.CutPrefix(base, e.m.prefix); ok && rollNameRe.MatchString(rest) {
+					mine[p] = d
+				}
+			}
+			where, n := locate(mine, e.w.Payload)
+			if n == 0 {
+				if e.m.prefix != rollName+"." { // the first appender's losses are judged (with the retention rules) above
+					o.violate("lost-write", "C19/lost-write/sibling", "write %s to the sibling appender is in none of its files", e.w.ID)
+				}
+				continue
+			}
+			if n > 1 {
+				o.violate("duplicate-write", "C19/duplicate-write", "write %s occurs %d times in %v", e.w.ID, n, where)
+				continue
+			}
+			base := where[0][strings.LastIndex(where[0], "/")+1:]
+			ft, ok := parseNameTime(strings.TrimPrefix(base, e.m.prefix))
+			want := e.file.Truncate(time.Second)
+			if ok && !ft.Equal(want) {
+				what := "creation-not-attempted-although-possible"
+				if ft.After(want) {
+					what = "file-created-during-outage"
+				}
+				o.violate("wrong-file", "C19/script/"+what, "sequential script: write %s at %s (creation possible: %v) must be in the file of %s but is in %s", e.w.ID,
+					e.w.Start.Format("15:04:05.000"), !e.outage, want.Format("15:04:05"), base)
+			}
+		}
+	}
 	// (3) descriptors
+	if sibling {
+		maxOpen -= 2
+	}
 	if maxOpen > 2 {
 		o.violate("too-many-descriptors", "C19/too-many-descriptors", "%d descriptors open on the rolling files while no write was in progress", maxOpen)
 	}
@@ -629,6 +782,9 @@ func (c19) Run(x *Exec, scn any) {
 		o.violate("descriptor-leak", "C19/descriptor-leak-after-stop", "%d descriptors still open after Stop: %v", n, x.FS.Handles())
 	}
 	// (4) no creation attempts between a failed creation and the next boundary
+	if sibling {
+		failedOpens = (failedOpens + 1) / 2 // each of the two appenders makes its own attempt per boundary
+	}
 	if failedOpens > boundaries+1 {
 		o.violate("retry-storm", "C19/creation-retried-within-interval", "%d failed creations for %d boundaries: creation is retried before the next boundary", failedOpens, boundaries)
 	}
@@ -979,6 +1135,35 @@ func (c19) Grid() []any {
 				}
 			}
 		}
+	}
+	// the same enumeration for (a) two appenders sharing the directory, whose writes alternate, and
+	// (b) a retention period (1 h) no longer than the outage, with hourly rotation
+	place := func(base []string, kind string, f func(script []string)) {
+		for i := 0; i <= len(base); i++ {
+			for j := i; j <= len(base)+1; j++ {
+				var script []string
+				for p := 0; p <= len(base); p++ {
+					if p == i {
+						script = append(script, "out:"+kind)
+					}
+					if p == j && j <= len(base) {
+						script = append(script, "restore")
+					}
+					if p < len(base) {
+						script = append(script, base[p])
+					}
+				}
+				f(script)
+			}
+		}
+	}
+	for _, kind := range []string{"rename", "emfile"} {
+		place([]string{"w", "v", "clk", "w", "v", "clk", "v", "w", "clk", "w", "v"}, kind, func(script []string) {
+			out = append(out, &RollScn{Interval: "1s", MaxAge: 100000, Writers: [][]int{{10}}, Script: script, Knobs: SimKnobs{Chunks: 1, OffsetMs: int64(len(out)%3) * 499}})
+		})
+		place([]string{"w", "clk", "w", "clk", "w", "w", "clk", "w", "clk", "w"}, kind, func(script []string) {
+			out = append(out, &RollScn{Interval: "h", MaxAge: 1, Writers: [][]int{{10}}, Script: script, Knobs: SimKnobs{Chunks: 1, OffsetMs: int64(len(out)%3) * 499}})
+		})
 	}
 	return out
 }
